@@ -42,7 +42,6 @@ RZ_TAIL = "SPECIFICATION SpecRz\nINVARIANTS TypeOK MapAgreesX\nVIEW View"
 SIM_TAIL = "SPECIFICATION SpecSim\nINVARIANTS TypeOK Emit"
 TV_TAIL = "SPECIFICATION TraceSpec\nINVARIANTS ReportBad\nPOSTCONDITION TraceAccepted"
 
-SIG_BULK = "indexer.indexSince:MaxBulkSize>1:%s-index:reads-differ-from-committed-log"
 
 
 def cfg(**kw):
@@ -107,7 +106,7 @@ def run(chk, args):
                ("mc-P-2x2-reads", dict(layout="P", keyset="k3p", maxtx=2, maxent=2, kinds='{"val", "del", "nix", "past"}', vals="{1}"), "IndexAgrees", 2, 2400),
                ("mc-PPI-2x2", dict(layout="PPI", keyset="k3", maxtx=2, maxent=2, kinds='{"val", "del", "nix"}'), "MapAgrees", 4, 2400)]
     else:
-        mc += [("mc-PI-2x2", dict(maxtx=2, maxent=2, kinds='{"val", "del", "nix"}'), "IndexAgrees", 4, 500),
+        mc += [("mc-PI-2x2", dict(maxtx=2, maxent=2, kinds='{"val", "del", "nix"}'), "MapAgrees", 4, 500),
                ("mc-P-2x2", dict(layout="P", keyset="k3p", maxtx=2, maxent=2, kinds='{"val", "del", "nix"}', vals="{1}"), "IndexAgrees", 2, 500)]
     for name, kw, inv, workers, to in mc:
         jobs[name] = pool.submit(tlc, wd, name, "MCIndex", cfg(tail=MC_TAIL % inv, **kw), workers, to)
@@ -133,20 +132,20 @@ def run(chk, args):
                                  ["-simulate", "num=%d" % num, "-depth", "22", "-seed", str(seed * 101 + i)])
 
     # ---------------------------------------------------------------- (4) real concurrent executions
-    tv_runs = [("PI", 8 if thorough else 3), ("P", 6 if thorough else 2)] + ([("PPI", 4)] if thorough else [])
+    tv_runs = [("PI", 8 if thorough else 2, 6 if thorough else 2), ("P", 6 if thorough else 1, 4 if thorough else 1)] + ([("PPI", 4, 3)] if thorough else [])
 
-    def tv(layout, runs):
+    def tv(layout, runs, gated):
         tf = os.path.join(wd, "trace-%s.ndjson" % layout)
         dd = os.path.join(wd, "tvd-" + layout)
-        r = harness(binp, ["-mode", "tv", "-layout", layout, "-seed", str(seed), "-runs", str(runs), "-dir", dd, "-out", tf])
+        r = harness(binp, ["-mode", "tv", "-layout", layout, "-seed", str(seed), "-runs", str(runs), "-gated", str(gated), "-dir", dd, "-out", tf])
         lines = open(tf).readlines()
         res = None
         if lines:
             res = tlc(wd, "tv-" + layout, "TraceIndex", cfg(layout=layout, maxtx=1000, tail=TV_TAIL), 1, 900, env={"VERIF_TRACE": tf},
                       javaopts=["-Xss512m"])  # the reference is a recursion over the log
         return r, lines, res
-    for layout, runs in tv_runs:
-        jobs["tv-" + layout] = pool.submit(tv, layout, runs)
+    for layout, runs, gated in tv_runs:
+        jobs["tv-" + layout] = pool.submit(tv, layout, runs, gated)
 
     # ---------------------------------------------------------------- collect: replay of simulated behaviours
     rp_jobs = []
@@ -228,7 +227,7 @@ def run(chk, args):
 
     # ---------------------------------------------------------------- collect: trace validation
     nev = 0
-    for layout, runs in tv_runs:
+    for layout, runs, gated in tv_runs:
         r, lines, res = jobs["tv-" + layout].result()
         vlib.absorb(chk, r)
         if res is None:
@@ -243,6 +242,11 @@ def run(chk, args):
         nev += len(lines)
         report_rejected(chk, layout, lines, rep[0]["bad"])
     chk.cov["trace_events_validated"] = nev
+    ctr = chk.cov.get("counters", {})
+    for need in ("tv:gated:txs-indexed-during-dump", "tv:gated:runs", "tv:read:dump:final-quiescent", "tv:read:dump:final-after-reopen", "read:final",
+                 "read:final-after-reopen"):
+        if ctr.get(need, 0) == 0 and not any(v[0].startswith("indexer.indexSince") for v in chk.violations):
+            raise MachineryFault("vacuous: counter %s is 0 (no transaction indexed during a compaction dump / no final-state comparison)" % need)
 
     # ---------------------------------------------------------------- binding self-test
     if thorough or os.environ.get("VERIF_SELFTEST"):
@@ -259,33 +263,75 @@ def run(chk, args):
                         "trace validation judges a read against the committed log re-ordered by transaction id (immutability of the log is C02)"]
 
 
+KNOWN_REGRESS = "store.CompactIndexes:concurrent-writers:index-time-regresses-while-WaitForIndexingUpto-reports-progress"
+KNOWN_INJ = "store.CompactIndexes:concurrent-writers:injective-index:content-differs-after-index-restart"
+
+
+def tombstones_only(exp_rows, got_rows):
+    """The known permanent damage of an injective index that indexed while its source index had gone back in time:
+    every version that is an entry of the log is there and right; only tombstones (deleted versions written for a
+    previously mapped key) are missing, extra or point to an older previous version."""
+    key = lambda v: (v["tx"], v["vid"], v["del"], v["exp"], v["xmd"])
+    E = {tuple(r["k"]): r["vs"] for r in exp_rows}
+    G = {tuple(r["k"]): r["vs"] for r in got_rows}
+    differs = False
+    for k in set(E) | set(G):
+        ev, gv = E.get(k, []), [key(v) for v in G.get(k, [])]
+        rest = list(gv)
+        for v in ev:
+            if not v["tomb"]:
+                if key(v) not in rest:
+                    return False          # an entry of the log is missing or wrong
+                rest.remove(key(v))
+        if any(not g[2] for g in rest):
+            return False                  # an extra version that is not a deleted one
+        if sorted(rest) != sorted(key(v) for v in ev if v["tomb"]):
+            differs = True
+    return differs
+
+
 def report_rejected(chk, layout, lines, bad):
-    start = 0
     kinds = [("injective" if d["inj"] else "mapped" if d["mapped"] else "identity") for d in INDEXES[layout]]
     resets = [i for i, ln in enumerate(lines) if '"ev":"Reset"' in ln]
+    recs = []
+    damaged = set()   # (run start line, index): an injective index with the known tombstone damage
     for item in bad:
         n = item["line"]
         ev = json.loads(lines[n - 1])
         start = max(i for i in resets if i < n)
         hdr = json.loads(lines[start])
         kind = kinds[ev["x"] - 1]
+        tomb = bool(item.get("exp")) and ev["r"]["st"] == "ok" and tombstones_only(item["exp"], ev["r"]["items"])
+        if tomb and kind == "injective" and hdr.get("compactions", 0) > 0:
+            damaged.add((start, ev["x"]))
+        recs.append((item, ev, start, hdr, kind, tomb))
+    for item, ev, start, hdr, kind, tomb in recs:
+        n = item["line"]
+        conc = hdr.get("compactions", 0) > 0
+        final = ev.get("final", "")
         items = ev["r"].get("items") or []
         if ev["q"]["op"] in ("between", "scanb") and any(it.get("hc", 1) <= 0 for it in items):
             sig = "tbtree.lastUpdateBetween:%s:version-of-another-key-below-first-version" % ev["q"]["op"]
         elif item["why"] == "tombstone-not-marked-deleted":
             sig = "%s-index:tv:%s" % (kind, item["why"])
-        elif hdr.get("compactions", 0) > 0 and item["why"] == "index-time-behind-observed-progress":
-            sig = "store.CompactIndexes:concurrent-writers:index-time-regresses-while-WaitForIndexingUpto-reports-progress"
-        elif hdr.get("compactions", 0) > 0:
-            sig = "store.CompactIndexes:concurrent-writers:%s-index:content-differs-after-index-restart" % kind
-        elif hdr["bulk"] > 1:
-            sig = SIG_BULK % kind
+        elif final:
+            if kind == "injective" and conc and tomb:
+                sig = KNOWN_INJ
+            else:
+                sig = "%s-index:final-state%s:differs-from-committed-log%s" % (kind, "-after-concurrent-compaction" if conc else "",
+                                                                                 ":after-reopen" if final == "after-reopen" else "")
+        elif conc and item["why"] == "index-time-behind-observed-progress":
+            sig = KNOWN_REGRESS
+        elif conc and kind == "injective" and (tomb or (not item.get("exp") and (start, ev["x"]) in damaged)):
+            sig = KNOWN_INJ
         else:
             sig = "%s-index:tv:%s:%s" % (kind, ev["q"]["op"], item["why"])
         log = [json.loads(x) for x in lines[start:n] if '"ev":"Commit"' in x]
-        chk.violation(sig, "layout %s, %s: %s on index %d (%s) returned %s, which is not the value defined by the committed log at any index time in %d..%d"
-                      % (layout, hdr["cfg"], json.dumps(ev["q"]), ev["x"], kind, json.dumps(ev["r"])[:400], ev["lo"], ev["hi"]),
-                      {"layout": layout, "cfg": hdr["cfg"], "seed": chk.seed, "run": hdr["run"], "read": ev, "committed_log": log})
+        chk.violation(sig, "layout %s, %s (compactions while writing: %d, txs indexed during a dump on purpose: %d)%s: %s on index %d (%s) returned %s, "
+                      "which is not the value defined by the committed log at any index time in %d..%d"
+                      % (layout, hdr["cfg"], hdr.get("compactions", 0), hdr.get("during", 0), (" FINAL STATE " + final) if final else "",
+                         json.dumps(ev["q"]), ev["x"], kind, json.dumps(ev["r"])[:600], ev["lo"], ev["hi"]),
+                      {"layout": layout, "cfg": hdr["cfg"], "seed": chk.seed, "run": hdr["run"], "read": ev, "expected_dump": item.get("exp"), "committed_log": log})
 
 
 def selftest(chk, wd, binp, sims, seed):
